@@ -18,4 +18,8 @@ pub open spec fn foreign_pos(n: Seq<char>, m: Map<Seq<char>, Seq<char>>) -> bool
         m.dom().contains("x"@) || m.dom().contains("y"@) || m.dom().contains("cx"@) || m.dom().contains("cy"@)
     } else { false }
 }
-pub open spec fn unresolved(n: Seq<char>, m: Map<Seq<char>, Seq<char>>) -> bool { pending(m) || foreign_pos(n, m) }
+/// a dx / dy offset not yet folded into the position (native, and therefore final, on text / tspan / feOffset)
+pub open spec fn offset_pending(n: Seq<char>, m: Map<Seq<char>, Seq<char>>) -> bool {
+    !(n == "text"@ || n == "tspan"@ || n == "feOffset"@) && (m.dom().contains("dx"@) || m.dom().contains("dy"@))
+}
+pub open spec fn unresolved(n: Seq<char>, m: Map<Seq<char>, Seq<char>>) -> bool { pending(m) || foreign_pos(n, m) || offset_pending(n, m) }
